@@ -9,7 +9,7 @@ EXPLANATION = (
     "every child -- for every DAG node and every state of the traversal (the closure of these local facts is the reachable set). dds.load inside an evaluation that keeps the path returns "
     "blobs[requested_paths[p]] (the value kept by this evaluation) or a DDS error when the producer has not run; outside an evaluation it returns blobs[paths[p]]. "
     "READER: inspect_fun puts, for every path the function loads, the signature resolved for that path into the function's own signature (so a reader is re-evaluated exactly when the path serves "
-    "another result). Registration of kept paths for later loads and the placement matrix (top level / helper / kept function x producer before / after / earlier evaluation / never) are a bounded native check."
+    "another result). What a later load sees is what the latest evaluation committed: exactly the collected path -> signature map, overriding earlier bindings (commit clauses of _eval_new_ctx, shared with C04). Registration of kept paths for later loads and the placement matrix (top level / helper / kept function x producer before / after / earlier evaluation / never) are a bounded native check."
 )
 TRUSTED = ["A-ENGINE", "A-REC: the interaction structure is a finite DAG", "Store interface contract", "discovery of loads by the visitors (bounded)"]
 ASSUMPTIONS = ["A-REC", "A-USER", "A-LOG"]
@@ -23,15 +23,27 @@ for _n in ("producer_has_run", "serves_the_value_kept_by_this_evaluation", "read
     REPLAY["load#ensures:" + _n] = "h_load.load_in_eval"
 REPLAY["load#signals:only_if_read_before_produced_or_invalid_path"] = "h_load.load_in_eval"
 REPLAY["load#signals:only_coded_dds_errors"] = "h_load.load_in_eval"
+# what a later dds.load sees is what the latest evaluation committed: the commit clauses of _eval_new_ctx (shared with C04)
+_COMMIT = re.compile(r"^_eval_new_ctx#ensures:(commit_\w+|commits_exactly_the_collected_paths|paths_overridden_by_collected)")
 _OWN = re.compile(r"^(InspectFunction\.inspect_call#ensures:(kept_path_registered_for_later_loads|plain_call_registers_nothing|nothing_registered|kept_call_carries_its_store_path)|FunctionIndirectInteractionUtils\.|load#|InspectFunction\.inspect_fun#(ensures:(return_sig_covers_every_loaded_path_with_its_resolved_signature|result_loaded_paths)|assert|key_present))")
 
 
 def owns(name, kind):
-    return bool(_OWN.search(name))
+    return bool(_OWN.search(name) or _COMMIT.search(name))
+
+
+class _Replay(dict):
+    def get(self, key, default=None):
+        if _COMMIT.search(key):
+            return "h_api.trace_clause"
+        return dict.get(self, key, default)
+
+
+REPLAY = _Replay(REPLAY)
 
 
 def specs():
-    return [c() for c in indirect.SPECS] + [api.load_standalone()] + [c() for c in introspect_compose.SPECS] + [inspect_call.inspect_call()]
+    return [c() for c in indirect.SPECS] + [api.load_standalone(), api.eval_new_ctx()] + [c() for c in introspect_compose.SPECS] + [inspect_call.inspect_call()]
 
 
 def bounded(tier, seed, pr):
